@@ -158,11 +158,11 @@ func TestC07Race(t *testing.T) {
 	}
 	var n int64
 	defer func() { _ = rep.Finish(env) }()
+	var all []schedx.Conc
 	for _, c := range concCases(env.Deep()) {
-		cc := concOf(t, c, false)
-		allowed, _ := cc.Serial()
-		n += cc.FreeRunConc(rep, env, allowed, iters)
+		all = append(all, concOf(t, c, false))
 	}
+	n = schedx.FreeRunAll(rep, env, all, true, iters)
 	rep.Add(n, 0, 0, 0)
 	rep.OutcomeN("free-running race-detector pass [iterations]", n)
 }
